@@ -284,6 +284,46 @@ def regen_task(p, cfg, rec):
     elaborate_text(p, t2, label='request after the edit: ')
 
 
+def renamed_task(p, cfg, rec):
+    """wires renamed after construction: when the construction API lets a local wire take the name of a sibling (C11 says it must
+    refuse), generation must not hand back text with that name declared twice / driven twice"""
+    how, w = cfg['how'], cfg['w']
+    with quiet():
+        s = py4hw.HWSystem()
+        a, r = s.wire('a', w), s.wire('r', w)
+        holder = {}
+
+        def body(b):
+            s0, s1 = b.wire('s0', w), b.wire('s1', w)
+            holder.update(s0=s0, s1=s1, box=b)
+            Reg(b, 'r0', a, s0)
+            Reg(b, 'r1', s0, s1)
+            Buf(b, 'o', s1, r)
+        box = D.Box(s, 'pipe', {'a': a}, {'r': r}, body)
+        try:
+            if how == 'rename both to a new name':
+                holder['s0'].rename('stage')
+                holder['s1'].rename('stage')
+            elif how == 'rename onto the sibling':
+                holder['s1'].rename('s0')
+            elif how == 'reparentAndRename onto the sibling':
+                holder['s1'].reparentAndRename(box, 's0')
+            elif how == 'rename to fresh names':
+                holder['s0'].rename('stage0')
+                holder['s1'].rename('stage1')
+        except Exception as e:
+            p.res['refused'] += 1
+            p.note('%s: the construction API refused: %r' % (p.config, e))
+            return
+    text, exc = generate(box)
+    if text is None:
+        p.res['refused'] += 1
+        p.note('%s: generator refused: %r' % (p.config, exc))
+        return
+    p.res['programs'] += 1
+    elaborate_text(p, text)
+
+
 def dangling_task(p, cfg, rec):
     """designs under construction: nets that no leaf drives and/or no leaf reads, hooked to ports of structural children only.
     The circuit is incomplete (that is the user's business, so 'has a driver' is not demanded for the nets the circuit itself
@@ -505,6 +545,8 @@ def tasks_for(tier, seed):
     for shape in ('out-unconnected-inside', 'undriven-to-unread', 'driven-to-unread', 'undriven-to-read', 'driven-unconnected-outside', 'two-levels'):
         for w in (1, 8):
             t.append(('circuit under construction: %s, width %d' % (shape, w), dangling_task, {'shape': shape, 'w': w}))
+    for how in ('rename both to a new name', 'rename onto the sibling', 'reparentAndRename onto the sibling', 'rename to fresh names'):
+        t.append(('local wires renamed after construction: %s' % how, renamed_task, {'how': how, 'w': 8}))
     for edit in ('expose-internal-net', 'add-input-and-stage', 'add-internal-stage', 'expose-then-stage'):
         for entry in ('module', 'hierarchy'):
             for reuse in (False, True):
